@@ -96,10 +96,11 @@ func callUnmarshal(in []byte, ptr any, params string, withParams bool) (r callRe
 // Unmarshal (tightened after the capacity = length-in-bytes finding, /repo d7b1792): the bound is no longer
 // len(input) x size-of-type but follows the WORK the reference decoder did on the same input until it stopped:
 // a constant per descriptor node visited plus a small multiple of the Go memory the decoded data needs (vector
-// contents once; sizeof(element) per decoded element, times the growth factor of append). Reserving memory per
+// contents once; sizeof(element) per decoded element, times the growth factor of append; plain integer / array
+// elements of a vector cost a small constant, not a field's worth of tag parsing). Reserving memory per
 // length prefix, per input byte or per byte of a vector instead of per element breaks it at KB scale.
 func unmarshalBound(d *Desc, fl flags) uint64 {
-	return 16384 + 512*(fl.Visits+uint64(d.nodes())) + 8*fl.GoBytes
+	return 16384 + 512*(fl.Visits-fl.ScalarElems+uint64(d.nodes())) + 64*fl.ScalarElems + 8*fl.GoBytes
 }
 
 func marshalBound(d *Desc, v *Val) uint64 {
@@ -259,6 +260,52 @@ func factsOf(d *Desc) *typeFacts {
 		tf.classes["boundary-tag"] = true
 	}
 	return tf
+}
+
+// appendToByteFields makes a shallow copy of rv (as assigning a struct does) and appends one octet to every
+// byte-slice field of the copy, through nested structs and chosen arms; the original must not notice. It
+// returns the number of fields appended to.
+func appendToByteFields(rv reflect.Value) int {
+	cp := reflect.New(rv.Type()).Elem()
+	cp.Set(rv)
+	return appendBytesIn(cp, 0)
+}
+
+func appendBytesIn(v reflect.Value, depth int) int {
+	if depth > 8 {
+		return 0
+	}
+	switch v.Kind() {
+	case reflect.Slice:
+		if v.Type().Elem().Kind() == reflect.Uint8 {
+			v.Set(reflect.Append(v, reflect.ValueOf(uint8(0x5a))))
+			return 1
+		}
+		n := 0
+		for i := 0; i < v.Len() && i < 4; i++ {
+			// elements live in the backing array shared with the original: work on a copy of the element
+			e := reflect.New(v.Type().Elem()).Elem()
+			e.Set(v.Index(i))
+			n += appendBytesIn(e, depth+1)
+		}
+		return n
+	case reflect.Struct:
+		n := 0
+		for i := 0; i < v.NumField(); i++ {
+			if v.Type().Field(i).IsExported() {
+				n += appendBytesIn(v.Field(i), depth+1)
+			}
+		}
+		return n
+	case reflect.Ptr:
+		if v.IsNil() {
+			return 0
+		}
+		e := reflect.New(v.Type().Elem()).Elem()
+		e.Set(v.Elem())
+		return appendBytesIn(e, depth+1)
+	}
+	return 0
 }
 
 // dirtyVal is a value with every arm present, every vector non-empty and every integer non-zero: what a
@@ -455,6 +502,22 @@ func (ck *checker) decode(tr *Trial, in []byte, want *Val) {
 	if !bytes.Equal(r.out, in[consumed:]) {
 		v.Failf("unmarshal-rest", "%s: Unmarshal(%s) returned rest %s, want %s", ck.where(tr), hx(in), hx(r.out), hx(in[consumed:]))
 		return
+	}
+	// The decoded value is a value in its own right ("decoding the encoding returns the value"): what the
+	// caller does to the input buffer afterwards, or to a copy of the structure, must not change it.
+	for i := range buf {
+		buf[i] = ^buf[i] // the caller re-uses its receive buffer
+	}
+	if after := fromReflect(d, ptr.Elem()); !eqVal(d, &after, &exp) {
+		v.Failf("unmarshal-aliases-input", "%s: the value decoded from %s changed when the input buffer was overwritten afterwards: now %s", ck.where(tr), hx(in), show(after))
+		return
+	}
+	if n := appendToByteFields(ptr.Elem()); n > 0 {
+		ck.class("appended-to-decoded-byte-fields")
+		if after := fromReflect(d, ptr.Elem()); !eqVal(d, &after, &exp) {
+			v.Failf("unmarshal-shares-backing-array", "%s: the value decoded from %s changed when one octet was appended to each []byte field of a COPY of it: now %s", ck.where(tr), hx(in), show(after))
+			return
+		}
 	}
 	// re-encoding the decoded Go value reproduces exactly the bytes consumed
 	m := callMarshal(ptr.Elem().Interface(), ck.params, ck.params != "")
